@@ -69,6 +69,37 @@ type c07case struct {
 
 type c07fail func(key, desc string)
 
+// c07fatal: a logrus Fatal inside the implementation must not end the process; it unwinds like a panic and is judged
+// by whoever guards the call.
+type c07fatal struct{ code int }
+
+func (e c07fatal) String() string { return fmt.Sprintf("log.Fatal (exit status %d)", e.code) }
+
+func c07installExit() {
+	log.StandardLogger().ExitFunc = func(code int) { panic(c07fatal{code}) }
+}
+
+// c07try runs f; "" when it returned, else the panic message
+func c07try(f func()) (msg string) {
+	defer func() {
+		if x := recover(); x != nil {
+			if s, ok := x.(string); ok && strings.HasPrefix(s, "c07:") && !strings.HasPrefix(s, c07replayMismatch) {
+				panic(x) // the harness's own
+			}
+			msg = fmt.Sprint(x)
+			if msg == "" {
+				msg = "panic"
+			}
+		}
+	}()
+	f()
+	return ""
+}
+
+// prefix of the panic raised by the controlled pool when a recorded pool answer does not exist any more: the
+// implementation did not put into / take from its pools what it did when the same history was run before
+const c07replayMismatch = "c07: replayed pool answer"
+
 func c07guard(what string, fail c07fail, f func()) {
 	defer func() {
 		if x := recover(); x != nil {
@@ -622,7 +653,7 @@ func c07choose(p *C07CtlPool, n int) int {
 		c = w.choices[w.pos]
 	}
 	if c > n {
-		panic(fmt.Sprintf("c07: replayed pool answer %d but the pool holds %d items", c, n))
+		panic(fmt.Sprintf(c07replayMismatch+" %d but the pool holds %d items", c, n))
 	}
 	w.pos++
 	w.used = append(w.used, c)
@@ -1313,6 +1344,10 @@ func (w *c07world) apply(st *c07step, check bool) (v *c07viol) {
 	w.enum = false
 	w.tag(opName)
 	if panicked != nil {
+		if s, ok := panicked.(string); ok && strings.HasPrefix(s, c07replayMismatch) {
+			// the same history, replayed, finds other pool contents: the implementation is not a function of the history
+			return &c07viol{"control-run/history-does-not-replay:pool-content-differs", fmt.Sprintf("%s: %s (the same steps were executed before with that pool answer available)", st.Op, s)}
+		}
 		if s, ok := panicked.(string); ok && strings.HasPrefix(s, "c07:") {
 			panic(panicked)
 		}
@@ -1735,9 +1770,15 @@ func (w *c07world) canon() string {
 
 // c07exec replays a history from the root; returns the world, the violation (if any) and the index of the failing step.
 func c07exec(root string, steps []c07step, checkAll bool) (w *c07world, v *c07viol, at int) {
-	w = c07root(root)
+	if msg := c07try(func() { w = c07root(root) }); msg != "" {
+		return &c07world{}, &c07viol{"control-run/source-object-cannot-be-built/panic", "building the source object of the histories panicked: " + msg}, -1
+	}
 	for i := range steps {
-		if v = w.apply(&steps[i], checkAll || i == len(steps)-1); v != nil {
+		// (apply guards the operation itself; this guard is for the accessors used by the oracle and the probe)
+		if msg := c07try(func() { v = w.apply(&steps[i], checkAll || i == len(steps)-1) }); msg != "" {
+			v = &c07viol{w.curOp + "/panic:while-observing-the-objects", fmt.Sprintf("after %s, reading / probing the live objects panicked: %s", steps[i].Op, msg)}
+		}
+		if v != nil {
 			return w, v, i
 		}
 	}
@@ -1815,13 +1856,26 @@ func c07e2(r *verifkit.Result, pfx string, depth, maxObj, split int, reduced boo
 	kind := strings.ToUpper(pfx[:2])
 	visited := map[uint64]struct{}{}
 	var frontier []c07node
-	for _, root := range roots {
-		w := c07root(root)
-		visited[c07hash(root+"|"+w.canon())] = struct{}{}
-		frontier = append(frontier, c07node{root: root})
-	}
 	report := func(root string, steps []c07step, v *c07viol) {
 		r.Violate(v.key, c07histString(root, steps)+" ==> "+v.desc, c07case{Kind: kind, Root: root, Steps: steps})
+	}
+	for _, root := range roots {
+		w, v, _ := c07exec(root, nil, false)
+		cn := ""
+		if v == nil {
+			if msg := c07try(func() { cn = w.canon() }); msg != "" {
+				v = &c07viol{"control-run/source-object-cannot-be-built/panic", "reading the source object of the histories panicked: " + msg}
+			}
+		}
+		if v != nil {
+			// the histories of this root cannot start: that is a verdict on the tree, the other roots go on
+			if r.Shard == 0 {
+				report(root, nil, v)
+			}
+			continue
+		}
+		visited[c07hash(root+"|"+cn)] = struct{}{}
+		frontier = append(frontier, c07node{root: root})
 	}
 	for d := 1; d <= depth; d++ {
 		var next []c07node
@@ -1835,7 +1889,11 @@ func c07e2(r *verifkit.Result, pfx string, depth, maxObj, split int, reduced boo
 			}
 			w, v, _ := c07exec(nd.root, c07cloneSteps(nd.steps), false)
 			if v != nil {
-				panic("c07: frontier history no longer replays cleanly: " + v.key)
+				// a history that was clean when it was found fails when it is executed again: the implementation is
+				// not deterministic (the harness is: same steps, same pool answers). Its extensions are skipped.
+				r.Violate("control-run/history-does-not-replay/"+v.key, c07histString(nd.root, nd.steps)+" ==> was clean when first executed; executed again: "+v.desc,
+					c07case{Kind: kind, Root: nd.root, Steps: nd.steps})
+				continue
 			}
 			ops := w.enabled(maxObj, reduced)
 			if empty {
@@ -1852,7 +1910,9 @@ func c07e2(r *verifkit.Result, pfx string, depth, maxObj, split int, reduced boo
 					w2, v, at := c07exec(nd.root, steps, false)
 					last := &steps[len(steps)-1]
 					if v != nil && at != len(steps)-1 {
-						panic("c07: prefix of a history no longer replays cleanly: " + v.key)
+						r.Violate("control-run/history-does-not-replay/"+v.key, c07histString(nd.root, steps[:at+1])+" ==> was clean when first executed; executed again as a prefix: "+v.desc,
+							c07case{Kind: kind, Root: nd.root, Steps: steps[:at+1]})
+						continue
 					}
 					used, ar := last.Ch, w2.arity
 					for i := len(pre); i < len(used); i++ {
@@ -1865,6 +1925,7 @@ func c07e2(r *verifkit.Result, pfx string, depth, maxObj, split int, reduced boo
 						r.Eval(1)
 						r.Trans(1)
 						r.Count(fmt.Sprintf("%s_histories_depth%d", pfx, d), 1)
+						r.Count(pfx+"_histories", 1)
 						if empty {
 							c07e3count(r, w2, last)
 						}
@@ -1882,7 +1943,13 @@ func c07e2(r *verifkit.Result, pfx string, depth, maxObj, split int, reduced boo
 						}
 						continue
 					}
-					cn := nd.root + "|" + w2.canon()
+					cn := nd.root + "|"
+					if msg := c07try(func() { cn += w2.canon() }); msg != "" {
+						if counted {
+							report(nd.root, steps, &c07viol{w2.curOp + "/panic:while-observing-the-objects", "reading the state reached panicked: " + msg})
+						}
+						continue
+					}
 					h := c07hash(cn)
 					if _, ok := visited[h]; ok {
 						continue
@@ -1933,6 +2000,7 @@ func c07e3count(r *verifkit.Result, w *c07world, last *c07step) {
 
 func TestVerifC07(t *testing.T) {
 	log.SetOutput(io.Discard)
+	c07installExit()
 	r := verifkit.New("C07")
 	defer r.Write()
 	C07PoolChoose = c07choose
@@ -2058,8 +2126,11 @@ func TestVerifC07(t *testing.T) {
 	if os.Getenv("VERIF_C07_SECTIONS") != "" {
 		return
 	}
-	r.RequireNonVacuous("e2_pool_gets_answered_with_pooled_item")
-	r.RequireNonVacuous("e1_law_instances")
+	// guards on what the harness did: strings submitted, histories executed (e2_pool_gets_answered_with_pooled_item and
+	// e1_law_instances depend on what the implementation puts into its pools / on calls that return: reported only)
+	r.RequireNonVacuous("e1_string_variants")
+	r.RequireNonVacuous("e2_histories")
+	r.RequireNonVacuous("e3_histories")
 	// guards on what is executed whatever the implementation answers (the finer counters e3_appends_while_... /
 	// e3_appends_after_... tell how many appends met an emptied object: they drop when violations cut the search)
 	r.RequireNonVacuous("e3_emptying_operations")
